@@ -203,6 +203,8 @@ pub const FEATURE_SNIPPETS: &[&str] = &[
     "local co = coroutine.wrap(function(...) local x = ... end)\nco(\nlocal ok, err = pcall(function() error('x') end)\n",
     "---@param cb fun(err: string?, data: table)\nlocal function async(cb) end\nasync(function(err, data)\n  data.\nend)\nasync(function() end, )\n",
     "local t2 = { f = function(a) end, g = { h = function(self, b) end } }\nt2.f(\nt2.g:h(\nt2.g.h(\nt2['f'](\n",
+    // multi-line lexical tokens with astral characters on their non-final lines (per-line semantic token pieces)
+    "local s = [[ 😀 first\n second 😀😀 𝔘\n third]]\n--[[ c 😀\n 𝔘𝔘 x\n]]\nlocal t = 'a😀\\z\n   b'\n---@type string 😀 desc\nlocal u = [==[\n😀\n]==]\n",
     // call form x definition form x arity: dot-defined called with ':', colon-defined called with '.', zero parameters
     "local t = {}\nfunction t.f() end\nfunction t.g(a) end\nfunction t:m() end\nfunction t:n(a) end\nt:f()\nt:f(\nt:g()\nt:g(1, )\nt.m()\nt.m(\nt.n(t, )\nt:n()\nt:n(\n",
     "---@class K\n---@field f fun()\n---@field g fun(self: K)\n---@field h fun(a: integer)\n---@type K\nlocal k\nk:f()\nk:f(\nk:g(\nk.g(\nk:h(\nk.h(\n",
